@@ -454,3 +454,79 @@ def _logo_drawn_on(interp, args, kwargs, node):
 @S.spec("new_axes")
 def _new_axes(interp, args, kwargs, node):
     return VObj("Axes", z3.Const("new_axes", OBJ))
+
+
+# ---- labels_to_colors_tableau: matplotlib's tab20 colours cycled over the labels ----------------------------------------------
+E.SUBMODULES.update({"matplotlib.pyplot.cm", "matplotlib.pyplot.cm.tab20"})
+
+
+def _tab20():
+    cols = []
+    for j in range(20):
+        cols.append(VObj("colour", z3.Const(f"tab20[{j}]", OBJ)))
+    return VTuple(cols)
+
+
+E.CONSTANTS["matplotlib.pyplot.cm.tab20.colors"] = _tab20
+
+
+@extern("matplotlib.pyplot.cycler")
+def _cycler(interp, args, kwargs, node):
+    """plt.cycler(c=colours)() : an endless iterator of {'c': colour} dicts cycling through the colours in order"""
+    c = kwargs.get("c")
+    items = interp.concrete_iter(c) if c is not None else None
+    if args or items is None or set(kwargs.keys()) != {"c"} or not items:
+        raise Unsupported("plt.cycler form")
+    o = VObj("Cycler")
+    o.colors = list(items)
+    ctx = interp.ctx
+    for x in o.colors:
+        ctx.assume(E._arg_term(interp, x) != _black(interp), "extern:matplotlib's tab20 colours are (r, g, b) tuples, none of them the list [0, 0, 0]")
+    return o
+
+
+@method("Cycler", "__call__")
+def _cycler_call(interp, sv, args, kwargs, node):
+    it = VObj("CycleIter")
+    it.colors = sv.colors
+    return it
+
+
+def _cycle_value(interp, it, j):
+    """the j-th dict of the endless cycle: {'c': colours[j mod n]}"""
+    n = len(it.colors)
+    t = E._arg_term(interp, it.colors[-1])
+    for k in range(n - 2, -1, -1):
+        t = z3.If(j % n == k, E._arg_term(interp, it.colors[k]), t)
+    return VDict(items=[[VStr("c"), VObj("colour", t)]])
+
+
+_dict_prev2 = E.BUILTINS["dict"]
+
+
+def _dict3(interp, args, kwargs, node):
+    if len(args) == 1 and not kwargs and isinstance(args[0], E.VZip) and len(args[0].its) == 2 and isinstance(args[0].its[1], VObj) \
+            and args[0].its[1].tag == "CycleIter":
+        ks, it = args[0].its
+        vk = E.ordered_view(interp, ks, node)
+        if vk is not None and isinstance(getattr(ks.content, "elem_kind", None), T_StrT):
+            ctx = interp.ctx
+            n = vk[0]
+            pos = ctx.fresh_fun("key_pos", z3.StringSort(), z3.IntSort())
+            j = z3.Int("j!dz")
+            kat = lambda q: vk[1](q).term
+            ctx.assume(z3.ForAll([j], z3.Implies(z3.And(0 <= j, j < n), pos(kat(j)) == j), patterns=[kat(j)]),
+                       "python:dict(zip(keys, values)) with pairwise distinct keys maps keys[j] to values[j]")
+            i, i2 = z3.Int("i!dz"), z3.Int("i2!dz")
+            if not interp.spec_mode:
+                short = (interp.current_qualname or "").replace("pyrepseq.", "")
+                ctx.oblige(f"{short}/call-pre[dict(zip(...)): keys pairwise distinct]@L{getattr(node, 'lineno', '?')}",
+                           z3.ForAll([i, i2], z3.Implies(z3.And(0 <= i, i < i2, i2 < n), kat(i) != kat(i2))), kind="call-pre",
+                           line=getattr(node, "lineno", None))
+            d = VDict(dom=lambda k: z3.And(0 <= pos(k.term), pos(k.term) < n, kat(pos(k.term)) == k.term),
+                      get=lambda k: _cycle_value(interp, it, pos(k.term)), key_kind=T_Str, val_kind=None)
+            return interp.born(d)
+    return _dict_prev2(interp, args, kwargs, node)
+
+
+E.BUILTINS["dict"] = _dict3
